@@ -3,6 +3,8 @@
 use crate::outcome::Outcome;
 use crate::Ctx;
 
+pub mod c05;
+pub mod c07;
 pub mod c12;
 
 pub struct Spec {
@@ -25,6 +27,24 @@ pub fn spec(id: &str) -> Option<Spec> {
             min_evaluations: 10_000,
             min_nontrivial: 500,
             run: c12::run,
+        },
+        "C05" => Spec {
+            id: "C05",
+            level: "fault_enumeration",
+            shards_quick: 8,
+            shards_thorough: 14,
+            min_evaluations: 500,
+            min_nontrivial: 200,
+            run: c05::run,
+        },
+        "C07" => Spec {
+            id: "C07",
+            level: "exploration",
+            shards_quick: 4,
+            shards_thorough: 14,
+            min_evaluations: 10_000,
+            min_nontrivial: 1_000,
+            run: c07::run,
         },
         _ => return None,
     })
